@@ -3,9 +3,12 @@ package findings
 import (
 	"fmt"
 	"math/big"
+	"sort"
+	"strconv"
 	"strings"
 
 	"verifharness/model"
+	"verifharness/resp"
 )
 
 // retyped returns how a value written as text s reads back on a server that re-types numeric-looking
@@ -102,4 +105,191 @@ func init() {
 		got, ok := c.Reply.Val.Text()
 		return ok && !c.Reply.Val.IsErr() && got == e.S
 	})
+}
+
+// zaddParts splits a ZADD command into flags and (score, member) pairs.
+func zaddParts(cmd []string) (flags map[string]bool, pairs [][2]string) {
+	flags = map[string]bool{}
+	i := 2
+	for ; i < len(cmd); i++ {
+		u := strings.ToUpper(cmd[i])
+		if u == "NX" || u == "XX" || u == "GT" || u == "LT" || u == "CH" || u == "INCR" {
+			flags[u] = true
+			continue
+		}
+		break
+	}
+	for ; i+1 < len(cmd); i += 2 {
+		pairs = append(pairs, [2]string{cmd[i], cmd[i+1]})
+	}
+	return
+}
+
+// zrangeIndexWindow computes the selection of ZRANGE/ZRANGESTORE under the reading that the existing
+// tests pin: "LIMIT a b" = positions a..b (inclusive) of the whole ordered set, then the bound filter.
+func zrangeIndexWindow(pre *model.Entry, args []string) ([]model.ZPair, bool) {
+	if len(args) < 3 {
+		return nil, false
+	}
+	startS, stopS := args[1], args[2]
+	var byLex, rev, hasLimit bool
+	var off, cnt int64
+	for i := 3; i < len(args); i++ {
+		switch strings.ToUpper(args[i]) {
+		case "BYLEX":
+			byLex = true
+		case "REV":
+			rev = true
+		case "LIMIT":
+			if i+2 >= len(args) {
+				return nil, false
+			}
+			o, e1 := strconv.ParseInt(args[i+1], 10, 64)
+			n, e2 := strconv.ParseInt(args[i+2], 10, 64)
+			if e1 != nil || e2 != nil {
+				return nil, false
+			}
+			hasLimit, off, cnt = true, o, n
+			i += 2
+		}
+	}
+	if !hasLimit || pre == nil || pre.Type != model.TZSet {
+		return nil, false
+	}
+	all := model.Sorted(pre.Z)
+	if byLex {
+		sort.Slice(all, func(i, j int) bool { return all[i].M < all[j].M })
+	}
+	if rev {
+		for i, j := 0, len(all)-1; i < j; i, j = i+1, j-1 {
+			all[i], all[j] = all[j], all[i]
+		}
+	}
+	if cnt < 0 {
+		cnt = int64(len(all)) - off
+	}
+	var out []model.ZPair
+	lo, ok1 := model.ParseScore(startS)
+	hi, ok2 := model.ParseScore(stopS)
+	for i := off; i <= cnt && i < int64(len(all)); i++ {
+		p := all[i]
+		if byLex {
+			if p.M >= startS && p.M <= stopS {
+				out = append(out, p)
+			}
+		} else if ok1 && ok2 && p.S >= lo && p.S <= hi {
+			out = append(out, p)
+		}
+	}
+	return out, true
+}
+
+func init() {
+	// F-C17-zadd-count-without-ch: without CH, ZADD (no NX/XX) also counts members whose score changed.
+	Register("F-C17-zadd-count-without-ch", func(c *Ctx, d *Deviation) bool {
+		if d.Kind != "reply" || len(c.Cmd) < 4 || !strings.EqualFold(c.Cmd[0], "ZADD") {
+			return false
+		}
+		flags, pairs := zaddParts(c.Cmd)
+		if flags["CH"] || flags["INCR"] || flags["NX"] || flags["XX"] {
+			return false
+		}
+		e := c.PreEntry(c.Cmd[1])
+		if e == nil || e.Type != model.TZSet {
+			return false
+		}
+		added, changed := int64(0), int64(0)
+		for _, p := range pairs {
+			sc, ok := model.ParseScore(p[0])
+			if !ok {
+				return false
+			}
+			old, exists := e.Z[p[1]]
+			switch {
+			case !exists:
+				added++
+			case flags["GT"] && !(sc > old), flags["LT"] && !(sc < old):
+			case sc != old:
+				changed++
+			}
+		}
+		got, ok := c.Reply.Val.AsInt()
+		return ok && !c.Reply.Val.IsErr() && changed > 0 && got == added+changed
+	})
+
+	// F-C17-zrange-limit: LIMIT offset count is applied as a position window offset..count (inclusive)
+	// over the whole ordered set before the bound filter (pinned by the existing ZRANGE/ZRANGESTORE tests).
+	Register("F-C17-zrange-limit", func(c *Ctx, d *Deviation) bool {
+		if len(c.Cmd) < 4 {
+			return false
+		}
+		switch strings.ToUpper(c.Cmd[0]) {
+		case "ZRANGE":
+			if d.Kind != "reply" {
+				return false
+			}
+			want, ok := zrangeIndexWindow(c.PreEntry(c.Cmd[1]), c.Cmd[1:])
+			if !ok {
+				return false
+			}
+			var flat []string
+			collect(c.Reply.Val, &flat)
+			ws := false
+			for _, a := range c.Cmd[4:] {
+				if strings.EqualFold(a, "WITHSCORES") {
+					ws = true
+				}
+			}
+			stride := 1
+			if ws {
+				stride = 2
+			}
+			if len(flat) != stride*len(want) {
+				return false
+			}
+			for i, p := range want {
+				if flat[i*stride] != p.M {
+					return false
+				}
+			}
+			return true
+		case "ZRANGESTORE":
+			want, ok := zrangeIndexWindow(c.PreEntry(c.Cmd[2]), c.Cmd[2:])
+			if !ok {
+				return false
+			}
+			switch d.Kind {
+			case "reply":
+				got, isInt := c.Reply.Val.AsInt()
+				return isInt && !c.Reply.Val.IsErr() && int(got) == len(want)
+			case "state":
+				if d.Diff.Key != c.Cmd[1] {
+					return false
+				}
+				if len(d.Diff.Got.Z) != len(want) && !(len(want) == 0 && d.Diff.Got.Type == model.TNone) {
+					return false
+				}
+				for _, p := range want {
+					if g, ok := d.Diff.Got.Z[p.M]; !ok || g != p.S {
+						return false
+					}
+				}
+				return true
+			}
+		}
+		return false
+	})
+}
+
+// collect flattens a reply into scalar texts.
+func collect(v resp.Value, out *[]string) {
+	if l, ok := v.List(); ok {
+		for _, e := range l {
+			collect(e, out)
+		}
+		return
+	}
+	if t, ok := v.Text(); ok {
+		*out = append(*out, t)
+	}
 }
